@@ -286,6 +286,17 @@ def discipline : Hist → Bool
 
 def allStopped (h : Hist) : Bool := (adapters h).all fun a => !running a h
 
+/-- successful `Start()` calls / `Close()` calls of adapter `a` -/
+def okStarts (a : Nat) : Hist → Nat
+  | [] => 0
+  | .start a' r :: h => (if a' = a ∧ r = .ok then 1 else 0) + okStarts a h
+  | _ :: h => okStarts a h
+
+def stops (a : Nat) : Hist → Nat
+  | [] => 0
+  | .stop a' :: h => (if a' = a then 1 else 0) + stops a h
+  | _ :: h => stops a h
+
 /-- **close stops every started adapter exactly once** (with `discipline`) -/
 def closeStops (o : Obs) : Bool :=
   !(o.op == .close) || allStopped o.hist
